@@ -478,6 +478,8 @@ def run(ctx):
 
 
 SELFTEST = [
+    ('merge-flag-numpy-bool', 'pyerrors/obs.py', '    o.reweighted = any(oi.reweighted for oi in list_of_obs)', '    o.reweighted = np.any([oi.reweighted for oi in list_of_obs])', 'C05-D3'),
+    ('benign-merge-flag-bool-of-numpy', 'pyerrors/obs.py', '    o.reweighted = any(oi.reweighted for oi in list_of_obs)', '    o.reweighted = bool(np.any([oi.reweighted for oi in list_of_obs]))', 'BENIGN'),
     ('reduce-strided-shortcut-no-step-division', 'pyerrors/obs.py', "    if _check_lists_equal([idx_old, idx_new]):\n        return deltas\n    indices = np.intersect1d", "    if type(idx_old) is range and type(idx_new) is range and idx_new.step % idx_old.step == 0 and idx_new[0] in idx_old and idx_new[-1] in idx_old:\n        first = idx_new.start - idx_old.start\n        return np.array(deltas)[first::idx_new.step // idx_old.step][:len(idx_new)]\n    if _check_lists_equal([idx_old, idx_new]):\n        return deltas\n    indices = np.intersect1d", 'C05-D1'),
     ('benign-reduce-strided-shortcut', 'pyerrors/obs.py', "    if _check_lists_equal([idx_old, idx_new]):\n        return deltas\n    indices = np.intersect1d", "    if type(idx_old) is range and type(idx_new) is range and idx_new.step % idx_old.step == 0 and idx_new[0] in idx_old and idx_new[-1] in idx_old:\n        first = (idx_new.start - idx_old.start) // idx_old.step\n        return np.array(deltas)[first::idx_new.step // idx_old.step][:len(idx_new)]\n    if _check_lists_equal([idx_old, idx_new]):\n        return deltas\n    indices = np.intersect1d", 'BENIGN'),
     ('shape-check-dedented-out-of-loop', 'pyerrors/obs.py', "        if obs_a.shape[name] != obs_b.shape[name]:\n            raise ValueError('Shapes of ensemble', name, 'do not fit')\n        if obs_a.idl[name] != obs_b.idl[name]:\n            raise ValueError('idl of ensemble', name, 'do not fit')\n", "        if obs_a.idl[name] != obs_b.idl[name]:\n            raise ValueError('idl of ensemble', name, 'do not fit')\n    if obs_a.shape[name] != obs_b.shape[name]:\n        raise ValueError('Shapes of ensemble', name, 'do not fit')\n", 'C05-D5'),
